@@ -133,6 +133,9 @@ func (x *Exec) execInstr(fr *frame, st *State, in ssa.Instruction) {
 			x.obligeSafety(fr, st, "nil", tFalse, i)
 			bail("%s: field address through nil pointer", fr.name)
 		}
+		if p.May != nil {
+			x.obligeSafety(fr, st, "nil", mkNot(*p.May), i)
+		}
 		np := Ptr{Obj: p.Obj, Path: append(append([]Sel(nil), p.Path...), Sel{Field: i.Field})}
 		st.env[i] = np
 	case *ssa.Field:
@@ -239,6 +242,9 @@ func (x *Exec) unop(fr *frame, st *State, i *ssa.UnOp) {
 		if p.Nil {
 			x.obligeSafety(fr, st, "nil", tFalse, i)
 			bail("%s: load through nil pointer", fr.name)
+		}
+		if p.May != nil {
+			x.obligeSafety(fr, st, "nil", mkNot(*p.May), i)
 		}
 		v := x.load(st, p)
 		st.env[i] = x.nameValue(i.Name(), v)
@@ -365,14 +371,14 @@ func (x *Exec) compareNonScalar(fr *frame, a, b Value) T {
 			return tTrue
 		}
 		if p.Nil != q.Nil {
-			return tFalse
+			return mkEq(p.nilCond(), q.nilCond())
 		}
 		if p.Obj != q.Obj {
-			return tFalse
+			return mkAnd(p.nilCond(), q.nilCond())
 		}
 		eq, ok := valueEq(p, q)
 		if !ok {
-			return tFalse
+			return mkAnd(p.nilCond(), q.nilCond())
 		}
 		return eq
 	case Slc:
